@@ -14,7 +14,7 @@ FORMATS = ["delimited", "fixed", "ods", "excel"]
 #: type -> (rule template, fixed width, good pool, bad pool, text-format-only)
 FIELD_KINDS = {
     "Integer": ("0{sep}99", 3, ["0", "7", "42", "99"], ["100", "-1", "x", "1.5"], False),
-    "Decimal": ("0{sep}9.99", 4, ["1.5", "0", "9.99"], ["10", "abc", "1,5"], True),
+    "Decimal": ("0{sep}9.99", 4, ["1.5", "0", "9.99"], ["10", "abc", "1,5", "9.9900000000000001"], True),
     "Choice": ("red,green", 5, ["red", "green"], ["blue", "RED"], False),
     "Constant": ("k", 1, ["k"], ["j"], False),
     "DateTime": ("DD.MM.YYYY", 10, ["01.02.2003", "31.12.1999"], ["31.02.2003", "x"], False),
